@@ -135,6 +135,11 @@ func readPacket(r io.Reader, b []byte, maxPacketLength uint32) ([]byte, error) {
 	}
 
 	n, err := io.ReadFull(r, b[:length])
+	if err == io.EOF {
+		// Not a single byte of a body whose length has already been read:
+		// the stream ended inside a packet, not between two of them.
+		err = io.ErrUnexpectedEOF
+	}
 	return b[:n], err
 }
 
